@@ -167,6 +167,44 @@ pub fn run(args: &[String]) -> i32 {
                     }
                 }
             }
+            "accessor" => {
+                // one auto-parse per announced type; the whole row of 30 accessors is judged at requested = announced's row
+                let b4 = bodies.get(&a).map(|l| l[0].1.clone()).unwrap_or(default_body.clone());
+                let text = message(&a, &b4);
+                if want == "unsupported" {
+                    if let Ok(row) = session::accessors(&text) {
+                        let some: Vec<&str> = row.iter().filter(|x| x.1.is_some()).map(|x| x.0).collect();
+                        push(&mut violations, format!("C12|accessor|{}|parsed-as:{:?}", aclass, some), &text, json!({"code": a}));
+                    }
+                } else {
+                    match session::accessors(&text) {
+                        Err(e) => push(&mut violations, format!("C12|accessor|MT{}|auto-parse-failed", a), &text, json!({"err": e})),
+                        Ok(row) => {
+                            let got = row.iter().find(|x| x.0 == r).and_then(|x| x.1.clone());
+                            let typed_json = if a == r { session::typed(&a, &text).ok().map(|t| t.json) } else { None };
+                            match (want, got) {
+                                ("parsed", Some(j)) => {
+                                    if Some(&j) != typed_json.as_ref() {
+                                        push(&mut violations, format!("C12|accessor|MT{}|as_mt{}-differs-from-typed", a, r), &text, json!({}));
+                                    }
+                                    match session::accessor_into(&text, &r) {
+                                        Ok(Some(j2)) if j2 == j => {}
+                                        other => push(&mut violations, format!("C12|accessor|MT{}|into_mt{}-differs-from-as", a, r), &text, json!({"into": format!("{:?}", other).chars().take(200).collect::<String>()})),
+                                    }
+                                }
+                                ("parsed", None) => push(&mut violations, format!("C12|accessor|MT{}|as_mt{}-gives-nothing", a, r), &text, json!({})),
+                                ("mismatch", Some(_)) => push(&mut violations, format!("C12|accessor|MT{}|as_mt{}-gives-a-message", a, r), &text, json!({})),
+                                ("mismatch", None) => {
+                                    if let Ok(Some(_)) = session::accessor_into(&text, &r) {
+                                        push(&mut violations, format!("C12|accessor|MT{}|into_mt{}-gives-a-message", a, r), &text, json!({}));
+                                    }
+                                }
+                                _ => {}
+                            }
+                        }
+                    }
+                }
+            }
             "auto" | "wrapper" => {
                 let b4 = bodies.get(&a).map(|l| l[0].1.clone()).unwrap_or(default_body.clone());
                 let text = message(&a, &b4);
